@@ -18,7 +18,7 @@ ASSUMPTIONS = [
 ]
 RULE = {
     "quick": "connected class representatives n<=4 over 2 elements x 2 bond orders under all permutations (n<=3) / rotations+reflection (n=4); all unordered pairs of connected representatives "
-    "with <=5 atoms in total as disconnected graphs (incl. two isomorphic components); symmetric families; the exact analysis repeated with default-valued charge / order left out on some atoms / bonds; match lists of every (host n<=4 rep, pattern n<=3 rep) pair with >=2 matches through "
+    "with <=5 atoms in total as disconnected graphs (incl. two isomorphic components); symmetric families; the exact analysis repeated with default-valued charge / order left out on some atoms / bonds, and with labels of equal value and other Python type (exact analysis and estimate); match lists of every (host n<=4 rep, pattern n<=3 rep) pair with >=2 matches through "
     "deduplicate_matches_with_anchor with exact, estimated and host orbits; non-trivial = non-trivial automorphism group",
     "thorough": "connected representatives n=5 (single bonds), pairs with <=6 atoms, larger symmetric families",
 }
